@@ -42,7 +42,7 @@ Record flavor := mkfl {
   f_nulls_first_desc : bool;   (* descending sort puts nulls first (PostgreSQL) *)
   f_join_null_match : bool     (* a null join key matches a null join key (pandas.merge); never in SQL *)
 }.
-Definition fl_pandas   := mkfl false false false false false false false false true.
+Definition fl_pandas   := mkfl false false false false false false false false false.   (* null join keys no longer match on Pandas since the join fix in /repo (null keys never match) *)
 Definition fl_spec     := mkfl false false false false false false false false false.
 Definition fl_sqlite   := mkfl true  true  false false true  true  true  false false.   (* maximum/minimum propagate, fmax/fmin skip a NULL since /repo 9699787 *)
 Definition fl_postgres := mkfl true  true  false false true  true  false true  false.
